@@ -60,7 +60,9 @@ Record facts := {
   f_split_noscheme : string;                    (* "split://" *)
   f_split_scheme : string;                      (* "split+" *)
   f_split_keys : string * string;               (* ("count", "suffix-length") *)
-  f_loop_args : list string                     (* args.<x> read between `try:` and `finally:` *)
+  f_loop_args : list string;                    (* args.<x> read between `try:` and `finally:` *)
+  f_expand_meta : list string                   (* iter_timestamped_records: reserved fields copied from the
+                                                   original record onto every expanded record *)
 }.
 
 (* ------------------------------------------------------------------------------------------------ *)
@@ -256,7 +258,18 @@ Definition with_join (F : facts) (j : join_shape) : facts :=
      f_yield_per_record := f_yield_per_record F; f_finally_exit := f_finally_exit F; f_order := f_order F;
      f_rewriter_cond := f_rewriter_cond F; f_override_guards := f_override_guards F;
      f_compile_flag := f_compile_flag F; f_multi := f_multi F; f_split_noscheme := f_split_noscheme F;
-     f_split_scheme := f_split_scheme F; f_split_keys := f_split_keys F; f_loop_args := f_loop_args F |}.
+     f_split_scheme := f_split_scheme F; f_split_keys := f_split_keys F; f_loop_args := f_loop_args F;
+     f_expand_meta := f_expand_meta F |}.
+
+Definition with_expand_meta (F : facts) (l : list string) : facts :=
+  {| f_default_uri := f_default_uri F; f_mode_to_uri := f_mode_to_uri F; f_qparams := f_qparams F; f_join := f_join F;
+     f_stop_guard := f_stop_guard F; f_stop_expr := f_stop_expr F; f_default_skip := f_default_skip F;
+     f_default_suffix_length := f_default_suffix_length F; f_handlers := f_handlers F;
+     f_yield_per_record := f_yield_per_record F; f_finally_exit := f_finally_exit F; f_order := f_order F;
+     f_rewriter_cond := f_rewriter_cond F; f_override_guards := f_override_guards F;
+     f_compile_flag := f_compile_flag F; f_multi := f_multi F; f_split_noscheme := f_split_noscheme F;
+     f_split_scheme := f_split_scheme F; f_split_keys := f_split_keys F; f_loop_args := f_loop_args F;
+     f_expand_meta := l |}.
 
 (* ------------------------------------------------------------------------------------------------ *)
 (* the URI side                                                                                        *)
@@ -508,7 +521,8 @@ Arguments failure {R}.
    -- a concrete instance of [expand], used to state what --multi-timestamp does to the reserved fields.
    extend_record(TimestampRecord(value, name), [rec]): the fields of the timestamp record come first, fields of
    the same name in rec are ignored, and the values come from ChainMap(ts_record, rec): the timestamp record's
-   own reserved fields (_source = _classification = None, _generated = now) take precedence. *)
+   own reserved fields (_source = _classification = None, _generated = now) take precedence -- unless the loop
+   then copies a reserved field from the original record ([copied], GENERATED: f_expand_meta). *)
 
 Inductive cval := VId (n : N) | VText (s : string).
 Record cfield := { cf_name : string; cf_dt : bool; cf_val : cval }.
@@ -526,11 +540,22 @@ Definition expand_one (m : cmeta) (r : crec) (f : cfield) : crec :=
 
 Definition fresh_meta (now : N) : cmeta := {| m_source := None; m_class := None; m_generated := now |}.
 
+Definition smem (x : string) (l : list string) : bool := existsb (String.eqb x) l.
+
+(* metadata of an expanded record: the fresh TimestampRecord's, overwritten by the copied fields *)
+Definition expanded_meta (copied : list string) (now : N) (m : cmeta) : cmeta :=
+  {| m_source := if smem "_source" copied then m_source m else None;
+     m_class := if smem "_classification" copied then m_class m else None;
+     m_generated := if smem "_generated" copied then m_generated m else now |}.
+
+Definition meta_all_copied (copied : list string) : bool :=
+  smem "_source" copied && smem "_classification" copied && smem "_generated" copied.
+
 (* as implemented *)
-Definition expand_impl (now : N) (r : crec) : list crec :=
+Definition expand_impl (copied : list string) (now : N) (r : crec) : list crec :=
   match filter cf_dt (c_fields r) with
   | [] => [r]
-  | dts => map (expand_one (fresh_meta now) r) dts
+  | dts => map (expand_one (expanded_meta copied now (c_meta r)) r) dts
   end.
 
 (* as the property wants it: the expanded records keep the record's metadata *)
